@@ -275,7 +275,7 @@ func ruleKindSetsAgree(c *core.Ctx, rule string) {
 		c.Undecided(rule, "type/encoding/kind-sets", token.NoPos, "anchor not found")
 		return
 	}
-	ek, dk := kindCases(enc, isKind), kindCases(dec, isKind)
+	ek, dk := kindCasesWithSiblings(enc, isKind), kindCasesWithSiblings(dec, isKind)
 	bad := ""
 	var ks []int64
 	for k := range ek {
@@ -314,7 +314,7 @@ func ruleKindSwitches(c *core.Ctx) {
 			cr, _ := core.CallResult(core.StripConv(v))
 			return cr != nil && cr.Call.StaticCallee() != nil && core.FuncKey(cr.Call.StaticCallee()) == "reflect.Value.Kind"
 		}
-		cases := kindCases(fn, isKind)
+		cases := kindCasesWithSiblings(fn, isKind)
 		ks := make([]int64, 0, len(kindNames))
 		for k := range kindNames {
 			ks = append(ks, k)
@@ -885,4 +885,34 @@ func constString(k *types.Const) string {
 // rulePrimitiveCopies: fixed-size buffers of the primitives hold what is copied into them.
 func rulePrimitiveCopies(c *core.Ctx) {
 	ruleCopyFits(c, "C03.primitives", "type/basic", "bus/net")
+}
+
+// kindCasesWithSiblings: kindCases of fn, plus the kinds handled in a method of
+// the same codec that fn hands its own value to (return q.scalarValue(v) after
+// the composite cases).
+func kindCasesWithSiblings(fn *ssa.Function, isKind func(ssa.Value) bool) map[int64][]string {
+	cases := kindCases(fn, isKind)
+	for _, call := range core.Calls(fn) {
+		h := core.StaticCallee(call)
+		if h == nil || h == fn || h.Signature.Recv() == nil || fn.Signature.Recv() == nil ||
+			!types.Identical(h.Signature.Recv().Type(), fn.Signature.Recv().Type()) || len(h.Blocks) == 0 {
+			continue
+		}
+		passesValue := false
+		args := call.Common().Args
+		for _, a := range args[1:] {
+			if len(fn.Params) > 1 && core.Canon(a) == ssa.Value(fn.Params[1]) {
+				passesValue = true
+			}
+		}
+		if !passesValue {
+			continue
+		}
+		for k, prims := range kindCases(h, isKind) {
+			if _, dup := cases[k]; !dup {
+				cases[k] = prims
+			}
+		}
+	}
+	return cases
 }
